@@ -46,6 +46,16 @@ CLAIMED["C03"] = dict(
     technique="Lean 4: gate invariant over primitive steps + accounting refinement theorem; differential correspondence under a virtual clock; spec monitor on implementation traces",
 )
 
+CLAIMED["C20"] = dict(
+    text="Proof (Lean 4) on a byte-level model of the C API whose struct layouts are regenerated from maybenot.h and lib.rs on every run: decode(encode(convert a)) = view a field for field "
+         "(kind, machine, bypass, replace, timer, seconds/nanoseconds split), the written count equals the number of framework actions and is <= num_machines (discharged from C04), nothing beyond "
+         "index count is written, event conversion is exact and injective, null pointers / bad arguments give the specified result codes; header/Rust layout consistency is a proof obligation. "
+         "The five extern \"C\" functions are driven through the rlib with canaries around the output buffer and compared byte-wise with the model and with the Rust framework.",
+    ref="7 (C20)",
+    technique="Lean 4 theorems on a header-derived C layout model + translator (maybenot.h, lib.rs) + differential correspondence on raw output bytes with canaries",
+    note="Trusted in addition: x86-64 SysV layout rules as modelled in Ffi.lean; real memory safety of the unsafe writes beyond the byte-level contract, OS RNG and Instant::now() are outside the model; machines are deterministic so the API's OS-seeded RNG cannot matter.",
+)
+
 PENDING = {}
 
 ALL = [f"C{i:02d}" for i in range(1, 21)]
